@@ -1,5 +1,6 @@
 import HpoModel.Proto
 import HpoModel.Num
+import HpoModel.Load
 /-
 Driver state and the core operations of the line protocol: building an ontology through the
 Builder model and dumping the whole read API in canonical form.
@@ -16,6 +17,8 @@ structure DState where
   /-- a panic happened in this case: the rest of the case is skipped on both sides -/
   dead : Bool := false
   regs : List (String × List Nat) := []
+  /-- decoded records accumulated by the `f*` ops -/
+  facts : RawFacts := {}
 
 def DState.slot (s : DState) (n : Nat) : Option Onto := (s.slots.find? (·.1 = n)).map (·.2)
 def DState.setSlot (s : DState) (n : Nat) (o : Onto) : DState :=
